@@ -186,6 +186,9 @@ func (ex *Explorer) Run() {
 				ex.sstats.Unsat += s.stats.Unsat
 				ex.sstats.Unknown += s.stats.Unknown
 				ex.sstats.Errors += s.stats.Errors
+				if ex.sstats.FirstError == "" {
+					ex.sstats.FirstError = s.stats.FirstError
+				}
 				ex.sstats.Time += s.stats.Time
 				ex.fbCalls += s.fbStats.Calls
 				ex.fbCvc5 += s.fbStats.ByCvc5Int
